@@ -295,6 +295,14 @@ Definition increment_stats {V} (vadd : V -> V -> V) (k : entry) (v : V) (initial
 Definition return_stats {V} (hooks : list (hook V)) : dict V :=
   fold_left (fun acc h => dict_update acc (h_stats h)) hooks [].
 
+(* Controller.add_hook(hook):  if hook not in [type(me) for me in self.hooks]: self.__hooks += [hook()]
+   Hooks are identified by their class (an id); membership is by EXACT class — an instance of a subclass does not
+   count as the class itself.  add_hooks: the requests of Controller.__init__ (DefaultHooks, CPUTimings, user list)
+   followed by those of the convergence controllers. *)
+Definition add_hook (cls : Z) (hooks : list Z) : list Z :=
+  if existsb (Z.eqb cls) hooks then hooks else hooks ++ [cls].
+Definition add_hooks (requests hooks : list Z) : list Z := fold_left (fun hs c => add_hook c hs) requests hooks.
+
 (* a hook object driven by a script of calls (used for the exact correspondence with core/hooks.py) *)
 Inductive op :=
 | ORefresh (step : option (option Z))                    (* any pre_*/post_* callback of the base class *)
